@@ -26,6 +26,7 @@ type c01Spec struct {
 	Word []string `json:"word,omitempty"`
 	N    int      `json:"n,omitempty"`
 	Long *lwSpec  `json:"long,omitempty"` // a long world (long.go) instead of words
+	Idle string   `json:"idle,omitempty"` // the run starts with this symbol on its first day(s); the soil sampling comes three days later, so the first simulated day is judged as well
 }
 
 var c01Alpha = []string{"dry-warm", "drizzle", "rain", "dry-hot-windy", "frost", "heavy", "extreme"}
@@ -120,6 +121,16 @@ func init() {
 			for _, lw := range lwSpecs(tier, seed, true) {
 				lw := lw
 				s = append(s, c01Spec{Long: &lw})
+			}
+			// the first simulated day itself (no sampling on it), starting with days without any flux
+			for _, so := range []string{"loam12", "sand20", "three"} {
+				for _, gw := range []int{99, 3} {
+					for _, et := range []int{1, 2, 3, 4} {
+						for _, sym := range []string{"zero-flux", "deep-frost", "no-sun-no-rad", "calm-dark", "dry-warm", "rain"} {
+							s = append(s, c01Spec{Base: e1Base{Soil: so, GW: gw, InitW: 0.5, ET: et}, Idle: sym})
+						}
+					}
+				}
 			}
 			return mc.Specs(s)
 		},
@@ -285,6 +296,29 @@ func c01Run(raw json.RawMessage, c *mc.Ctx) {
 	defer os.RemoveAll(root)
 	if sp.NTo > 0 || sp.N > 0 {
 		c01Sweep(sp, c, root)
+		return
+	}
+	if sp.Idle != "" {
+		p := e1Project(sp.Base, 8)
+		h0 := p.Rotation[0].Harvest
+		p.Meas.Date = isoAdd(h0, 3)
+		word := []string{sp.Idle, sp.Idle, "mild", "mild", "rain", "dry-warm", "mild", "mild"}
+		// records: 3 lead days, then the start day
+		p.Weather = e1Weather(0, word, p.VerdColumn)[2:]
+		p.WeatherStart = isoAdd(h0, -3)
+		lead := e1Weather(0, nil, p.VerdColumn)[:3]
+		p.Weather = append(lead, p.Weather[3:]...)
+		p.Weather[3], p.Weather[4] = sigma[sp.Idle], sigma[sp.Idle]
+		if p.VerdColumn {
+			p.Weather[3].Verd, p.Weather[4].Verd = satDeficit(p.Weather[3]), satDeficit(p.Weather[4])
+		}
+		p.Write(root)
+		start := proj.ZEIT(proj.D(h0))
+		l := &c01Ledger{c: c, measDay: start - 1, exemptDays: map[int]bool{start + 3: true}, label: fmt.Sprintf("first days %s, sampling on day +3", sp.Idle)}
+		res := proj.Run(root, p.Args(root), l.probe())
+		c.Trace(1)
+		c01Outcome(c, res, l, sp, []string{sp.Idle}, 0)
+		c.Sample(map[string]interface{}{"first_days": sp.Idle, "base": sp.Base})
 		return
 	}
 	if sp.Long != nil {
